@@ -6,6 +6,7 @@ CONSTANTS
   SampleMod = 41
   SampleRes = 7
   Ex = 3
+  YNorm = FALSE
   Kinds = {"mat", "pert", "resp"}
 INVARIANT Theorems
 CONSTRAINT Emit
